@@ -120,7 +120,7 @@ static int build_defect(const Plan *p, const CredSet *good, CredSet *bad, Plan *
 	int verifier_node = role == 0 ? 0 : 1;
 	int derive = 0;
 	note[0] = 0;
-	int64_t edge = (int64_t[]){ 1, 1, 2, 60, 86400, 400 * 86400LL }[rng_below(&r, 6)];
+	int64_t edge = (int64_t[]){ 1, 1, 2, 60, 3600, 6 * 3600, 86400, 400 * 86400LL }[rng_below(&r, 8)];
 	switch (p->defect) {
 	case D_FOREIGN_ROOT_SAMENAME: o.foreign_root = 1; derive = 1; break;
 	case D_FOREIGN_ROOT_OTHERNAME: o.foreign_root = 2; derive = 1; break;
